@@ -438,6 +438,21 @@ func (s *Sched) Parked() []ParkedG {
 
 func (s *Sched) NumGoroutines() int { return len(s.gs) }
 
+// LibAlive: library goroutines (started through the rewritten go statements) that have not exited
+func LibAlive() int {
+	s := S
+	if s == nil {
+		return 0
+	}
+	n := 0
+	for _, g := range s.gs {
+		if !g.Client && !g.done {
+			n++
+		}
+	}
+	return n
+}
+
 // PoolMiss decides whether sync.Pool.Get drops its cache (the real pool may, at any time).
 func PoolMiss() bool {
 	s := S
